@@ -49,6 +49,7 @@ type checkOpts struct {
 	keep                    bool
 	verbose                 bool
 	noEvidence              bool
+	noConformance           bool
 	dump                    string
 }
 
@@ -64,6 +65,7 @@ func cmdCheck(args []string) int {
 	fs.BoolVar(&o.keep, "keep", false, "keep SMT files of failed obligations")
 	fs.BoolVar(&o.verbose, "v", false, "verbose")
 	fs.BoolVar(&o.noEvidence, "no-evidence", false, "do not write the evidence file")
+	fs.BoolVar(&o.noConformance, "no-conformance", false, "skip the standard-library conformance harness")
 	fs.StringVar(&o.dump, "dump", "", "write every query into this directory")
 	fs.Parse(args)
 	if s := os.Getenv("VERIF_SEED"); s != "" {
@@ -574,6 +576,10 @@ func report(o checkOpts, w *World, reports []*funcReport, obls []*Obligation, un
 		fmt.Printf("VIOLATION property=%s replay=%s obligation=%s result=%s%s\n", o.prop, path, ob.Name, ob.Res.Status, suffix)
 		exit = 1
 	}
+	for _, u := range uncoveredAntecedents {
+		// informational: does not change the exit status
+		fmt.Printf("COVER property=%s %s\n", o.prop, u)
+	}
 	if len(vacuous) > 0 {
 		for _, vname := range vacuous {
 			fmt.Printf("VACUOUS property=%s context-unsatisfiable-at=%s\n", o.prop, vname)
@@ -677,6 +683,21 @@ func report(o checkOpts, w *World, reports []*funcReport, obls []*Obligation, un
 			}
 		}
 	}
+	var conformance any
+	if o.onlyFunc == "" && !o.noConformance {
+		ci := runConformance(o)
+		conformance = ci
+		if len(ci.Failed) > 0 || ci.Error != "" {
+			what := "did not run: " + ci.Error
+			if len(ci.Failed) > 0 {
+				what = "contradicts an assumed contract: " + strings.Join(ci.Failed, "; ")
+			}
+			fmt.Printf("UNDECIDED property=%s standard-library conformance harness %s\n", o.prop, truncate(what, 600))
+			if exit == 0 {
+				exit = 2
+			}
+		}
+	}
 	cov := map[string]any{
 		"obligations":              len(obls) - len(knownHit),
 		"discharged":               discharged,
@@ -694,6 +715,7 @@ func report(o checkOpts, w *World, reports []*funcReport, obls []*Obligation, un
 		"vacuous_contexts":         vacuous,
 		"generator_notes":          notes,
 		"bounded_standins":         standins,
+		"stdlib_conformance":       conformance,
 		"antecedents_never_true":   append([]string{}, uncoveredAntecedents...),
 	}
 	if uncovered != nil {
